@@ -92,6 +92,10 @@ class MulticastOutgoingQueue:
             for record in answers:
                 pending.answers.pop(record, None)
 
+    def async_remove_answers(self, answers: _AnswerWithAdditionalsType) -> None:
+        """Remove answers that must no longer be sent (their service was withdrawn)."""
+        self._remove_answers_from_queue(answers)
+
     def async_ready(self) -> None:
         """Process anything in the queue that is ready."""
         zc = self.zc
